@@ -154,7 +154,52 @@ def merge(case, ctx):
         raise Violation("C06.merge.repeat", "merging the same two fields a second time gives a different result")
 
 
-@hyp("C06", "reduce", lambda tier: st.lists(field_desc(hi=5, off=8, min_size=2), min_size=1, max_size=6),
+def _rect_field(draw, r0, r1, c0, c1):
+    h, w = r1 - r0 + 1, c1 - c0 + 1
+    data = draw(gen.complex_array((h, w), maxmag=50.0, dense_prob=0.9))
+    return {"data": data, "offset": [r0 + h // 2, c0 + w // 2]}
+
+
+@st.composite
+def tiled_fields(draw):
+    """collections with exact coincidences between derived extents: strips / tiles whose union has exactly the
+    extent of another member (the full window), nested and adjacent members, in a drawn order"""
+    H, W = draw(st.integers(2, 7)), draw(st.integers(2, 7))
+    r0, c0 = draw(st.integers(-8, 8 - H)), draw(st.integers(-8, 8 - W))
+    r1, c1 = r0 + H - 1, c0 + W - 1
+    fields = []
+    kind = draw(st.sampled_from(["row_strips", "col_strips", "quadrants", "corner_pair"]))
+    if kind == "row_strips":
+        a = draw(st.integers(r0, r1))                   # first strip r0..a, second b..r1 with b <= a + 1
+        b = draw(st.integers(r0, min(a + 1, r1)))
+        fields += [_rect_field(draw, r0, a, c0, c1), _rect_field(draw, b, r1, c0, c1)]
+    elif kind == "col_strips":
+        a = draw(st.integers(c0, c1))
+        b = draw(st.integers(c0, min(a + 1, c1)))
+        fields += [_rect_field(draw, r0, r1, c0, a), _rect_field(draw, r0, r1, b, c1)]
+    elif kind == "quadrants":
+        rm, cm_ = draw(st.integers(r0, r1)), draw(st.integers(c0, c1))
+        for (ra, rb) in ((r0, rm), (min(rm + 1, r1), r1)):
+            for (ca, cb) in ((c0, cm_), (min(cm_ + 1, c1), c1)):
+                fields.append(_rect_field(draw, ra, rb, ca, cb))
+    else:                                               # two overlapping rectangles touching opposite corners
+        ra, ca = draw(st.integers(r0, r1)), draw(st.integers(c0, c1))
+        rb, cb = draw(st.integers(r0, ra)), draw(st.integers(c0, ca))
+        fields += [_rect_field(draw, r0, ra, c0, ca), _rect_field(draw, rb, r1, cb, c1)]
+    if draw(st.integers(0, 3)):
+        fields.append(_rect_field(draw, r0, r1, c0, c1))                     # the full window itself
+    for _ in range(draw(st.integers(0, 2))):
+        fields.append(draw(field_desc(hi=5, off=8, min_size=2)))
+    # one-element fields are infinite constants by this property and cannot take part in a merge: leave them out
+    fields = [f for f in fields if f["data"].size >= 2]
+    if not fields:
+        fields = [_rect_field(draw, r0, r1, c0, c1)]
+    order = draw(st.permutations(list(range(len(fields)))))
+    return [fields[i] for i in order]
+
+
+@hyp("C06", "reduce", lambda tier: st.one_of(st.lists(field_desc(hi=5, off=8, min_size=2), min_size=1, max_size=6),
+                                              tiled_fields()),
      "reduce(fields): results pairwise disjoint in extent, same total as the sum of embeddings; boundary(fields) "
      "= bounding box of the union", examples=(800, 3000))
 def reduce_(case, ctx):
@@ -169,6 +214,10 @@ def reduce_(case, ctx):
     exp = sum(fm.embed(f["data"], f["offset"]) for f in case)
     n_overlap = sum(1 for i, j in itertools.combinations(range(len(case)), 2) if sets[i] & sets[j])
     ctx.tag(f"n:{len(case)}", "reduce_n>=3" if len(case) >= 3 else None)
+    exts = [fm.set_extent(s_) for s_ in sets]
+    if any(fm.set_extent(sets[i] | sets[j]) == exts[k] for i, j, k in itertools.permutations(range(len(case)), 3)
+           if sets[i] & sets[j]):
+        ctx.tag("union_of_two_has_extent_of_third")
     union = set().union(*sets)
     want_bb = fm.set_extent(union)
     if want_bb[1] < 0 or want_bb[3] < 0:
